@@ -62,7 +62,7 @@ PROPS = {
                 'open': r'Fst::(new|len|is_empty|as_ref)|FstRef::(len|is_empty)|Map::|Set::', 'cw': r'.',
                 # of the cache, the round trip needs soundness (a hit returns the address recorded for that very node): entry / clone_from /
                 # the cell; which row a node goes to and who is evicted is C12's and C15's business
-                'registry': r'entry|clone_from|RegistryCell|eq$'},
+                'registry': r'entry|clone_from|RegistryCell|eq$|Registry::new|BuilderNode::(clone|default)'},
         'level_text': 'Proof, link by link: (1) every accepted insert/add extends the denotation of the builder (unfinished stack over the '
                       'emitted graph) by exactly (key, value) - Builder::{insert, add, insert_output, compile_from, compile} and all '
                       'UnfinishedNodes methods on their real bodies; (2) into_inner: the listing of graph(body) at the root address equals '
@@ -154,7 +154,8 @@ PROPS = {
                       'tsz(keys) is the recurrence "each key adds the bytes it does not share with its predecessor"; unit compose proves '
                       '(thm_trie_size) that 1 + tsz(keys) is the number of distinct prefixes of a sorted key list - the nodes of its trie. The sharing ratio on '
                       'the shipped corpora is an empirical clause no contract decides (a smaller but well-formed cache geometry passes). '
-                      'Registry::new (vec![cell; n]) and the derived PartialEq of BuilderNode are assumed.',
+                      'Registry::new, RegistryCell::none, BuilderNode::default / clone are verified on their real bodies (an empty, well-placed cache of rows x columns cells); '
+                      'assumed: the derived PartialEq of BuilderNode (field-wise), the derived Clone of RegistryCell (restated as its expansion), std Iterator::position on a slice iterator.',
         'explanation': '',
         'assumptions': ['corpus sharing ratio: not decidable by a function contract (DESIGN.md section 10)',
                         ],
